@@ -154,7 +154,7 @@ def show_quotation(q: list[str] | str) -> str:
 
 
 def quotation_direct(filepath: str, sm: tuple[Any, Any, Any, Any]) -> str:
-	"""ErrorRender.__build_quotation's tail on an explicit 1-based span (shift + Quotation.build)"""
+	"""the Quotation class on an explicit 1-based span (shift + Quotation.build), without __build_quotation's guards"""
 	from rogw.tranp.view.error_render import ErrorRender
 	try:
 		shifted = (sm[0] - 1, sm[1] - 1, sm[2] - 1, sm[3] - 1)
@@ -282,7 +282,7 @@ def stream_quote(ctx: Ctx) -> Stream:
 			bc = rng.randint(-1, 12)
 			ec = bc + rng.randint(-2, 8)
 			sm = (bl, bc, el, ec)
-			ops.append('quote\t' + ','.join(str(x) for x in sm))
+			ops.append('quoteraw\t' + ','.join(str(x) for x in sm))
 			real.append(quotation_direct(fp, sm))
 		cases.append(({'kind': f'lines={n}'}, ops, real))
 	# None positions take the real path through ErrorRender with a stub node (TypeError on `None - 1`)
